@@ -379,30 +379,39 @@ def from_notes_rows(ctx: Ctx) -> None:
     pm = fi.nested["push_measure"]
     pr = fi.nested["push_row"]
     mparam = pm.param_names()[0]
-    # q = reduce(lambda a, b: a*b // gcd(a, b), map(lambda note: note.beat.denominator, measure), 1)
-    reds = [c for c in calls(pm) if callee_name(ctx, pm, c).endswith("functools.reduce")]
-    rc = one(reds, f"reduce(...) in {pm.fq}")
-    par = parent(pm, rc)
-    require(isinstance(par, ast.Assign) and isinstance(par.targets[0], ast.Name), f"{pm.fq}: reduce result is not assigned to a name")
-    q = par.targets[0].id
+    # q = lcm of the beats' denominators: an accumulator starting at 1, folded over every note of the measure with a*d // gcd(a, d)
+    from .tables import sums_of as tsums
+    msums = tsums(ctx, pm)
+    accs = {}
+    for s_ in msums:
+        for i, e in enumerate(s_.effects):
+            if e.kind == "for" and ast.unparse(e.value) == mparam and isinstance(e.target, ast.Name):
+                nv_ = e.target.id
+                inl = [x for x in s_.effects if e.line in x.loops and x.kind == "bind" and isinstance(x.target, ast.Name) and x.opaque]
+                leave = [x for x in s_.effects if e.line in x.loops and x.kind in ("break", "continue", "return", "raise")]
+                for x in inl:
+                    r0 = s_.resolve(x.target.id, i)
+                    accs.setdefault(x.target.id, []).append((x.value, r0[1].value if r0 is not None else None, nv_, bool(leave), dict(s_.atoms_in(e.line))))
     okq = False
-    if len(rc.args) == 3 and isinstance(rc.args[0], ast.Lambda) and try_ev(ctx, pm, rc.args[2]) == 1:
-        lam = rc.args[0]
-        a, b = [x.arg for x in lam.args.args] if len(lam.args.args) == 2 else (None, None)
-        body = lam.body
-        if a and isinstance(body, ast.BinOp) and isinstance(body.op, ast.FloorDiv):
-            num, den = body.left, body.right
-            num_ok = P.equal(P.poly(num), P.mul(P.atom(a), P.atom(b)))
-            den_ok = isinstance(den, ast.Call) and callee_name(ctx, pm, den).endswith("math.gcd") and sorted(src(x) for x in den.args) == sorted([a, b])
-            okq = num_ok and den_ok
-        it = inline(rc.args[1], pm)
-        it_ok = (isinstance(it, ast.Call) and isinstance(it.func, ast.Name) and it.func.id == "map" and len(it.args) == 2 and isinstance(it.args[0], ast.Lambda)
-                 and ast.unparse(it.args[0].body) == f"{it.args[0].args.args[0].arg}.beat.denominator" and isinstance(it.args[1], ast.Name) and it.args[1].id == mparam)
-        if isinstance(it, (ast.GeneratorExp, ast.ListComp)) and len(it.generators) == 1 and not it.generators[0].ifs and isinstance(it.generators[0].target, ast.Name):
-            g_ = it.generators[0]
-            it_ok = ast.unparse(it.elt) == f"{g_.target.id}.beat.denominator" and isinstance(g_.iter, ast.Name) and g_.iter.id == mparam
-        okq = okq and it_ok
-    ctx.expect("R-POLY", pm, "q is the least common multiple of the beats' denominators (1 for an empty measure)", okq, src(rc, 100), f"q = {src(rc, 140)}", node=rc)
+    q = None
+    detail = ""
+    for name, uses in accs.items():
+        good = bool(uses)
+        for step, init, nv_, leave, atoms_ in uses:
+            D = f"{nv_}.beat.denominator"
+            ok1 = isinstance(step, ast.BinOp) and isinstance(step.op, ast.FloorDiv) and P.equal(P.poly(step.left), P.mul(P.atom(name), P.atom(D))) \
+                and isinstance(step.right, ast.Call) and callee_name_of(step.right) == "gcd" and sorted(ast.unparse(a_) for a_ in step.right.args) == sorted([name, D])
+            ok2 = init is not None and try_ev(ctx, pm, init) == 1
+            good = good and ok1 and ok2 and not leave and not atoms_
+            detail = f"{name} := {src(step, 100)} (from {src(init) if init is not None else '?'})"
+        if good:
+            okq, q = True, name
+    if q is None:
+        # the accumulator is still needed to judge the row key: take the only candidate
+        q = next(iter(accs), None)
+    ctx.expect("R-POLY", pm, "q is the least common multiple of the beats' denominators (1 for an empty measure)", okq, detail, f"q accumulates as: {detail or 'no accumulator over the measure found'}", node=pm.node)
+    if q is None:
+        raise AnalysisError(f"{pm.fq}: no accumulator folded over the measure's notes")
     # row key
     gls = _groupby_loops(ctx, pm)
     lp, k, g, it, lam = one(gls, f"groupby loop over rows in {pm.fq}")
@@ -489,6 +498,11 @@ def from_notes_rows(ctx: Ctx) -> None:
     judge_table(ctx, "R-TABLE", ns, "a cell is the type character plus '[index]' iff the note has a keysound index", decs_,
                 [f"{sn}.keysound_index is None"],
                 lambda a: "{" + sn + ".note_type}" if a[f"{sn}.keysound_index is None"] else "{" + sn + ".note_type}[{" + sn + ".keysound_index}]", outcome)
+
+
+def callee_name_of(c: ast.Call) -> str:
+    f = c.func
+    return f.id if isinstance(f, ast.Name) else (f.attr if isinstance(f, ast.Attribute) else "")
 
 
 # ---------------------------------------------------------------------------
@@ -723,25 +737,59 @@ def ungroup_order(ctx: Ctx) -> None:
         pos = [a for a, pol in fs if pol and isinstance(a, ast.Call) and ast.unparse(a) == f"isinstance({nv}, NoteWithTail)"]
         okp = bool(pos) and ast.unparse(pushes[0].args[0]) == H
     ctx.expect("R-ORDER", f, "every joined note pushes exactly one tail", okp, "", f"{len(pushes)} heappush site(s)", node=il)
-    # plain notes pass through check_orphan; the head of a joined note too
-    co = f.nested.get("check_orphan")
-    require(co is not None, "ungroup_notes.check_orphan not found")
-    yf = [n for n in body_walk(f.node) if isinstance(n, ast.YieldFrom) and isinstance(n.value, ast.Call) and callee(ctx, f, n.value) is co]
-    kinds = []
-    for y in yf:
-        fs = facts(ctx, f, y)
-        kinds.append(sorted(ast.unparse(a) for a, pol in fs if pol))
-    okk = len(yf) == 2 and [f"isinstance({nv}, Note)"] in kinds and [f"isinstance({nv}, NoteWithTail)"] in kinds
-    ctx.expect("R-ORDER", f, "plain notes and heads are each emitted once, through the orphan check", okk, str(kinds), f"check_orphan call sites: {kinds}", node=il)
-    plain = [y for y in yf if any(ast.unparse(a) == f"isinstance({nv}, Note)" for a, pol in facts(ctx, f, y) if pol)]
-    if plain:
-        a0 = plain[0].value.args[0] if plain[0].value.args else None
-        ctx.expect("R-REBUILD", f, "a plain note is passed on as the same object", isinstance(a0, ast.Name) and a0.id == nv, "", f"check_orphan({src(a0) if a0 is not None else ''})", node=plain[0])
-    # check_orphan yields its argument unless told to drop it
-    cco = ctx.cfg(co)
-    ys = [n for n in body_walk(co.node) if isinstance(n, ast.Yield)]
-    oky = len(ys) == 1 and isinstance(ys[0].value, ast.Name) and ys[0].value.id == co.param_names()[0]
-    ctx.expect("R-ORDER", co, "check_orphan yields the note itself", oky, "", "", node=co.node)
+    # what happens to each element: a decision table over path effects (the orphan check is judged wherever it is written:
+    # in a helper, a closure or in line)
+    from .tables import Dec, judge as tjudge, sums_of as tsums, touches
+    from ..decide import IGNORE
+    sums = tsums(ctx, f)
+    pol = "orphaned_notes"
+    loops = {(ast.unparse(e.target), e.line) for s_ in sums for e in s_.effects if e.kind == "for" and ast.unparse(e.value) == ml.target.id}
+    require(len(loops) == 1, f"{f.fq}: expected one loop over the elements of a row, found {sorted(loops)}")
+    x, line = next(iter(loops))
+    wl = {w.lineno for w in whiles}
+    HEAD = f"Note(beat={x}.beat, column={x}.column, note_type={x}.note_type, player={x}.player, keysound_index={x}.keysound_index)"
+    TAIL = f"Note(beat={x}.tail_beat, column={x}.column, note_type=NoteType.TAIL, player={x}.player)"
+    IN, NWT = f"isinstance({x}, Note)", f"isinstance({x}, NoteWithTail)"
+    SPLIT = f"{x}.column in (_c0.column for _c0 in {H})"
+    members = ("RAISE_EXCEPTION", "KEEP_ORPHAN", "DROP_ORPHAN")
+    PA = {m: f"{pol} == OrphanedNotes.{m}" for m in members}
+    decs = []
+    for s_ in sums:
+        if not any(e.kind == "for" and e.line == line for e in s_.effects):
+            continue
+        eff = [e for e in s_.effects if line in e.loops and not (set(e.loops) & wl) and e.kind in ("yield", "yieldfrom", "raise", "expr", "store", "return")
+               and not (e.kind == "expr" and not touches(e, [H]))]
+        decs.append(Dec(dict(s_.atoms_in(line)), tuple(e.text for e in eff), s_))
+    from ..decide import key as _k
+    seen = {k for d in decs for k in d.assign}
+    tested = {m: a_ for m, a_ in PA.items() if _k(a_) in seen}
+    push = f"heappush({H}, {TAIL})"
+
+    def spec(a):
+        on = [m for m, a_ in tested.items() if a[a_]]
+        if len(on) > 1:
+            return IGNORE
+        if a[IN]:
+            subj, after = x, ()
+        elif a[NWT]:
+            subj, after = HEAD, (push,)
+        else:
+            return ()
+        if not a[SPLIT]:
+            return (f"yield {subj}",) + after
+        mode = on[0] if on else next((m for m in members if m not in tested), None)
+        if mode is None:
+            return IGNORE  # all three members are tested and none holds: not a value of the enumeration
+        if mode == "RAISE_EXCEPTION":
+            return (f"raise OrphanedNoteException({subj})",)
+        if mode == "KEEP_ORPHAN":
+            return (f"yield {subj}",) + after
+        return after
+
+    tjudge(ctx, "R-ORDER", f, "each element: a plain note is passed on as the same object, a joined note as its rebuilt head now and its tail (pushed) later - each once; a note splitting a pending hold is "
+           "raised about / kept / dropped as orphaned_notes says, and the tail of a dropped head is still pushed", decs, [IN, NWT, SPLIT] + list(tested.values()), spec,
+           dont_care=[H, f"{H}[0] < {x}"], why="no note may be lost or duplicated; only a note in the column of a pending tail is subject to the orphan policy")
+    ctx.floor("orphan policy members tested in ungroup_notes", len(tested), 2)
 
 
 def timed_rules(ctx: Ctx) -> None:
